@@ -15,7 +15,7 @@ pub enum Op {
     Rotate(usize),
     /// set_children with one current child left out (the dropped child becomes a root)
     DropChild(usize, usize),
-    /// move a node under another parent with set_children-style reparenting (remove_child + add_child)
+    /// move a node under another parent (remove_child + add_child, or set_children adopting it: see `apply`)
     Reparent(usize, usize),
     Remove(usize),
     SetCtx(usize, Option<Ctx>),
@@ -124,12 +124,21 @@ impl World {
                 }
                 _ => false,
             },
-            Op::Reparent(n, p) => match (get(self, *n), get(self, *p)) {
+            Op::Reparent(ni, pi) => match (get(self, *ni), get(self, *pi)) {
                 (Some(n), Some(p)) if !self.is_ancestor_or_self(n, p) => {
-                    if let Some(old) = self.t.parent(n) {
-                        self.t.remove_child(old, n).unwrap();
+                    // two API routes with the same effect (n leaves its old parent, which is marked dirty, and becomes the
+                    // last child of p, which is marked dirty): remove_child + add_child, or -- every other time, when n is
+                    // not already a child of p -- set_children(p, children ++ [n]), which adopts n from its old parent
+                    if (*ni + *pi) % 2 == 1 && self.t.parent(n) != Some(p) {
+                        let mut ch = self.t.children(p).unwrap();
+                        ch.push(n);
+                        self.t.set_children(p, &ch).is_ok()
+                    } else {
+                        if let Some(old) = self.t.parent(n) {
+                            self.t.remove_child(old, n).unwrap();
+                        }
+                        self.t.add_child(p, n).is_ok()
                     }
-                    self.t.add_child(p, n).is_ok()
                 }
                 _ => false,
             },
